@@ -375,6 +375,11 @@ class Counters(EngineBase):
             else:
                 op = {"op": "proc_cpu_percent", "interval": interval,
                       "h": rng.randrange(2)}
+                if rng.random() < 0.2 and not (interval and interval < 0):
+                    # this one call cannot read the process record (EACCES):
+                    # it must fail without disturbing the object's previous
+                    # sample
+                    op["deny"] = True
             if interval and interval > 0:
                 # ticks that land while the call sleeps
                 nsub = rng.randrange(0, 3)
@@ -476,12 +481,25 @@ class Counters(EngineBase):
                         interval=interval, percpu=op["percpu"]))
                 else:
                     h = handles[op["h"] % len(handles)]
-                    out = ("value", h.cpu_percent(interval=interval))
+                    if op.get("deny"):
+                        k.deny = {"/proc/%d/stat" % h.pid: 13}
+                    try:
+                        out = ("value", h.cpu_percent(interval=interval))
+                    finally:
+                        k.deny = {}
             except BaseException as e:  # noqa: BLE001
                 if is_harness_exc(e):
                     raise
                 out = ("exc", e)
             k.end_op()
+            if kind == "proc_cpu_percent" and op.get("deny"):
+                probes["proc_sample_failed"] = probes.get(
+                    "proc_sample_failed", 0) + 1
+                if not (out[0] == "exc" and exc_class(psutil, out[1]) == "AD"):
+                    V("C07.process_percent", ["denied_call"], kind,
+                      "Process.cpu_percent() with /proc/<pid>/stat refused "
+                      "-> %r, expected AccessDenied" % (out[1],))
+                continue
             reads = k.statreads[sr0:]
             acc = [a for a in k.acclog[acc0:] if a[2] >= 0]
             api = kind
@@ -722,7 +740,7 @@ Counters.PROBES_BY_PROP = {
     "C10": ["wrap", "repeated_wrap", "device_gone", "device_new_or_back",
             "after_all_gone", "after_clear", "nowrap_off"],
     "C07": ["backwards", "subsecond_total", "zero_total", "blocking",
-            "nonblocking"],
+            "nonblocking", "proc_sample_failed"],
 }
 
 ENGINE = Counters()
